@@ -37,12 +37,12 @@ const (
 
 type c24Summary struct {
 	fn        *ssa.Function
-	ptrIdx    []int          // indices of pointer-typed results
-	nilOnErr  map[int]bool   // result index -> nil on every error return
-	nErrRet   int            // number of error returns
-	nOkRet    int            // number of success returns
-	okNonNil  map[int]bool   // result index -> provably non-nil on every success return
-	errRets   []c24Ret       // for reporting
+	ptrIdx    []int        // indices of pointer-typed results
+	nilOnErr  map[int]bool // result index -> nil on every error return
+	nErrRet   int          // number of error returns
+	nOkRet    int          // number of success returns
+	okNonNil  map[int]bool // result index -> provably non-nil on every success return
+	errRets   []c24Ret     // for reporting
 	okRets    []c24Ret
 	undecided map[int]string // result index -> why no summary
 }
